@@ -152,15 +152,15 @@ def argument_lattice(ctx, rec):
                 vectors = [[]] + [list(v) for k in (1, 2, 3, 4, 5) for v in itertools.product([-1, 0, 63, 64, 935000, 890000], repeat=k)][::(1 if ctx.tier == "thorough" else 5)]
             s = None
             for args in vectors:
-                if s is None:
-                    s = Session(cfg, {"reply", "power", "clock", "settings"}, "c05")
-                    s.cmd(0, "FAKE_TRXC_DELAY", ["0"])
-                    if state == "running":
-                        for i in range(s.n):
-                            s.cmd(i, "RXTUNE", ["890000" if i == 1 else "935000"])
-                            s.cmd(i, "TXTUNE", ["935000" if i == 1 else "890000"])
-                            s.cmd(i, "POWERON", [])
                 try:
+                    if s is None:
+                        s = Session(cfg, {"reply", "power", "clock", "settings"}, "c05")
+                        s.cmd(0, "FAKE_TRXC_DELAY", ["0"])
+                        if state == "running":
+                            for i in range(s.n):
+                                s.cmd(i, "RXTUNE", ["890000" if i == 1 else "935000"])
+                                s.cmd(i, "TXTUNE", ["935000" if i == 1 else "890000"])
+                                s.cmd(i, "POWERON", [])
                     s.cmd(0, verb, [str(a) for a in args])
                     if verb == "FAKE_TRXC_DELAY":
                         s.cmd(0, "FAKE_TRXC_DELAY", ["0"])
@@ -169,8 +169,11 @@ def argument_lattice(ctx, rec):
                     if v.sig not in seen:
                         seen.add(v.sig)
                         fails.append(Failure("argument_lattice", {"state": state, "verb": verb, "args": args}, v.sig, v.msg))
-                    s.close()
+                    if s is not None:
+                        s.close()
                     s = None          # model and application may have diverged: start over
+                    if len(seen) > 20:
+                        break
             if s is not None:
                 s.close()
     rec.bulk(n_cmd, n_cmd, {"lattice-commands": n_cmd})
